@@ -448,6 +448,14 @@ def _check(case, out, rec, state):
     midnight = (h, mi, s, us) == (0, 0, 0, 0)
     month_ok = midnight and day.day <= 28
     cal = Calendar('c10-no-holidays')          # the constructor does not touch the `calendars` registry
+    # the module-level drange lists WEEKDAYS for business-day bumps whatever calendars the program has registered: on odd start days the unnamed default calendar
+    # is registered with holidays inside the window and a Friday-Saturday weekend, on even days it is removed again
+    from pyg_base import calendar
+    import pyg_base._drange as _dr
+    if day.toordinal() % 2:
+        calendar(holidays=[D0 + DAY * k for k in range(0, (D1 - D0).days, 3)], weekend=(4, 5))
+    else:
+        _dr.calendars.pop(None, None)
     for group, M in case['groups']:
         if (group == 'long' and not month_ok) or state['hangs'] >= 2:
             continue
